@@ -3,7 +3,9 @@
 Extracted (anchored; a missing anchor is a problem): the value fetch_and_inc must return for a delivery (0), the value
 fetch_and_dec must return for the take of an outermost release (1), whether the take of pending_ is one atomic step
 (fetch_and_clear) or a read followed by a clear, the implementation of the three helpers on the non-Windows branch, and the
-order of the scheduling points (yield codes) in processSignal / unblockSignals.  coq/Properties_C18.v proves that these are the
+order of the scheduling points (yield codes) in processSignal / unblockSignals; for the OS-level layer (coq/C18/Disp.v): the shape
+of sigHandler's ScopedSig (signal(sig, SIG_IGN) first, unconditional signal(sig, sigHandler) in the destructor) and of main()'s
+installation loop (an ignored signal stays ignored, nothing restored at the end, blocked_ = pending_ = 0 at the start).  coq/Properties_C18.v proves that these are the
 values the model (coq/C18/Model.v) is written for.
 """
 import os
@@ -81,6 +83,36 @@ def generate(repo):
     for name, rx in helpers.items():
         if not re.search(rx, code):
             problems.append('anchor missing: %s implemented by the expected __sync builtin' % name)
+    # ---- the OS-level entry point (coq/C18/Disp.v): sigHandler's ScopedSig and what main() does with dispositions
+    sh = body_of(code, r'void\s+Application::sigHandler\s*\(\s*int\s+sig\s*\)\s*\{')
+    mn = body_of(code, r'int\s+Application::main\s*\(\s*int\s+argc\s*,\s*char\s*\*\*\s*argv\s*\)\s*\{')
+    if sh is None:
+        problems.append('anchor missing: Application::sigHandler(int sig)')
+        sh = ''
+    if mn is None:
+        problems.append('anchor missing: Application::main(int argc, char** argv)')
+        mn = ''
+    d['handler_ignores_first'] = re.search(
+        r'ScopedSig\(\s*int\s+s\s*\)\s*:\s*sig\(s\)\s*\{\s*signal\(\s*sig\s*,\s*SIG_IGN\s*\)\s*;\s*'
+        r'Application::getInstance\(\)->processSignal\(sig\)\s*;\s*\}', sh) is not None
+    if not d['handler_ignores_first']:
+        problems.append('anchor missing: sigHandler "ScopedSig(int s) : sig(s) { signal(sig, SIG_IGN); getInstance()->processSignal(sig); }"')
+    d['handler_reinstalls_always'] = re.search(r'~ScopedSig\(\s*\)\s*\{\s*signal\(\s*sig\s*,\s*sigHandler\s*\)\s*;\s*\}', sh) is not None
+    if not d['handler_reinstalls_always']:
+        problems.append('anchor missing: sigHandler "~ScopedSig() { signal(sig, sigHandler); }" (unconditional re-installation)')
+    if not re.search(r'\}\s*scoped\(sig\)\s*;', sh) or len(re.findall(r'\bsignal\s*\(', sh)) != 2:
+        problems.append('anchor missing: sigHandler consists of one ScopedSig object with exactly two signal() calls')
+    d['main_keeps_ignored'] = re.search(
+        r'for\s*\(\s*const\s+int\s*\*\s*sig\s*=\s*getSignals\(\)\s*;\s*sig\s*&&\s*\*sig\s*;\s*\+\+sig\s*\)\s*\{\s*'
+        r'if\s*\(\s*signal\(\s*\*sig\s*,\s*&Application::sigHandler\s*\)\s*==\s*SIG_IGN\s*\)\s*\{\s*signal\(\s*\*sig\s*,\s*SIG_IGN\s*\)\s*;\s*\}\s*\}', mn) is not None
+    if not d['main_keeps_ignored']:
+        problems.append('anchor missing: main() "for (sig in getSignals()) { if (signal(*sig, &sigHandler) == SIG_IGN) { signal(*sig, SIG_IGN); } }"')
+    d['main_restores_dispositions'] = len(re.findall(r'\bsignal\s*\(', mn)) != 2
+    if d['main_restores_dispositions']:
+        problems.append('main() calls signal() elsewhere than in the installation loop (the model restores nothing at the end of a run)')
+    d['main_resets_state'] = re.search(r'blocked_\s*=\s*pending_\s*=\s*0\s*;', mn) is not None
+    if not d['main_resets_state']:
+        problems.append('anchor missing: main() "blocked_ = pending_ = 0;"')
     ys_ps = [int(x) for x in re.findall(r'POTASSCO_VERIF_YIELD(?:_C)?\((\d+)\)', ps)]
     ys_ub = [int(x) for x in re.findall(r'POTASSCO_VERIF_YIELD(?:_C)?\((\d+)\)', ub)]
     d['yields_process'] = ys_ps
@@ -90,9 +122,16 @@ def generate(repo):
 
     def zl(l):
         return '[' + '; '.join(str(x) for x in l) + ']'
+
+    def cb(b):
+        return 'true' if b else 'false'
     coq = ('Require Import ZArith List. Import ListNotations.\nLocal Open Scope Z_scope.\n'
            'Definition deliver_at : Z := %d.\nDefinition release_at : Z := %d.\nDefinition take_atomic : bool := %s.\n'
-           'Definition yields_process : list Z := %s.\nDefinition yields_unblock : list Z := %s.\n' % (
+           'Definition yields_process : list Z := %s.\nDefinition yields_unblock : list Z := %s.\n'
+           'Definition handler_ignores_first : bool := %s.\nDefinition handler_reinstalls_always : bool := %s.\n'
+           'Definition main_keeps_ignored : bool := %s.\nDefinition main_restores_dispositions : bool := %s.\n'
+           'Definition main_resets_state : bool := %s.\n' % (
                d.get('deliver_at', -1), d.get('release_at', -1), 'true' if d.get('take_atomic') else 'false',
-               zl(ys_ps), zl(ys_ub)))
+               zl(ys_ps), zl(ys_ub), cb(d.get('handler_ignores_first')), cb(d.get('handler_reinstalls_always')),
+               cb(d.get('main_keeps_ignored')), cb(d.get('main_restores_dispositions')), cb(d.get('main_resets_state'))))
     return coq, d, problems
